@@ -58,6 +58,7 @@ struct Ctx<'a> {
     viols: Vec<(Vec<Op>, String)>,
     leaves: u64,
     originals: Vec<(String, u64)>,
+    forced_used: bool,
 }
 
 fn finish(run: &Run, flavour: usize, ctx: &mut Ctx) {
@@ -121,6 +122,25 @@ fn dfs(run: &Run, ctx: &mut Ctx) {
         }
         return;
     }
+    // once per path (small compositions only): the admin force-recovers a transfer that is still
+    // in flight; its value must then never be re-sent a second time, whatever happens to the original
+    if !ctx.forced_used && ctx.originals.len() <= 3 {
+        for (c, s) in &pending {
+            let mut r = run.clone();
+            let sc = r.sc.clone();
+            let p = r.sc.w.packets.get(&(c.clone(), *s)).cloned();
+            if let Some(p) = p {
+                r.step(Op::BankMint { addr: sc.q.clone(), denom: p.denom.clone(), amount: p.amount });
+                let res = r.step(sc.recover(&sc.admin, None, Some(vec![*s]), Some(&p.receiver)));
+                if res.ok {
+                    ctx.acc.count("c07enum:forced_inflight");
+                    ctx.forced_used = true;
+                    dfs(&r, ctx);
+                    ctx.forced_used = false;
+                }
+            }
+        }
+    }
     for (c, s) in &pending {
         for oc in ["ack", "err", "timeout"] {
             for recover_after in [false, true] {
@@ -166,7 +186,7 @@ pub fn run(a: &Args, acc: &mut Acc) {
                     if job % nshards != shard {
                         continue;
                     }
-                    let mut ctx = Ctx { acc: &mut *acc, viols: vec![], leaves: 0, originals: originals.clone() };
+                    let mut ctx = Ctx { acc: &mut *acc, viols: vec![], leaves: 0, originals: originals.clone(), forced_used: false };
                     for recover_after in [false, true] {
                         let mut r = base.clone();
                         r.step(Op::Relay { channel: c.clone(), seq: *s, outcome: oc.into() });
